@@ -407,6 +407,37 @@ def l3Suffix (d : DState) (secs : List String) : DState × String :=
     let v := l3Verdict d.memSize l3s ((kv.lookup "l3d").getD "")
     ({ d with l3Last := v }, " l3clean=" ++ v)
 
+/-! ### the values the rig's reads returned vs the current value of their line (work package COH) -/
+
+/-- `Proofs.MsiCoherence.cur` on a snapshot: the L1 copy of the core that holds the line Modified, else the next level -/
+def curData (o : Obs) (base : Int) : String :=
+  match o.states.find? (fun e => e.base == base && e.state == 2) with
+  | some e => (o.l1Data e.core base.toNat).getD ""
+  | none => ((o.next.find? (fun p => p.1 == base)).map (·.2)).getD ""
+
+/-- the `rv=` suffix of the answer to an S line of a rig run: every read that completed while this snapshot was the
+state (`rv=core:addr:data,…`) returned the current value of its line (`Props.C05.Msi.read_returns_cur`) -/
+def rvSuffix (d : DState) (secs : List String) : String :=
+  let kv : List (String × String) := secs.filterMap fun s =>
+    let s := s.trimAscii.toString
+    match s.splitOn "=" with
+    | k :: v :: _ => some (k, v)
+    | _ => none
+  match kv.lookup "rv" with
+  | none => ""
+  | some rv =>
+    let o := parseObs secs
+    let ok := (csv rv).all fun t =>
+      match t.splitOn ":" with
+      | [_, a, dat] =>
+        let addr := intOf a
+        let base := addr - addr % d.lineSize
+        let cur := decodeData (curData o base)
+        let got := decodeData dat
+        ((cur.drop (addr - base).toNat).take got.length) == got
+      | _ => false
+    if ok then " rv=ok" else " rv=bad"
+
 def handle (d : DState) (line : String) : DState × String :=
   let secs := line.splitOn " ; "
   let head := words (secs.headD "")
@@ -421,7 +452,7 @@ def handle (d : DState) (line : String) : DState × String :=
   | ["S", _, _] =>
     let (d1, ans) := handleSnapshot d (secs.drop 1)
     let (d2, suf) := l3Suffix d1 (secs.drop 1)
-    (d2, ans ++ suf)
+    (d2, ans ++ suf ++ rvSuffix d (secs.drop 1))
   | ["P", _, _] =>
     let o := parseObs (secs.drop 1)
     let s := o.snapshot d.lineSize
